@@ -363,3 +363,56 @@ mod verif_c05r {
     }
 }
 //@end
+
+// ------------------------------------------------------------------ Sector (tiny, from the constructor)
+//@append src/primitives/sector/points.rs
+#[cfg(kani)]
+#[allow(missing_docs, trivial_casts, trivial_numeric_casts, unused_qualifications, dead_code, unused)]
+mod verif_c05s {
+    use super::*;
+    use crate::{
+        geometry::{Angle, Dimensions},
+        primitives::{ContainsPoint, PointsIter},
+        verif_probe::{any_point, sp},
+    };
+
+    /// From the constructor (class P): a tiny sector with one of four angle pairs: a probe point is
+    /// yielded by points() exactly when contains() accepts it, at most once, in row-major order.
+    //@harness prop=C05 kind=bounded tier=thorough class=P bound="diameter <= 3 at (0,0), angle pairs (0,90), (45,-135), (90,180), (30,400) degrees" timeout=3000 unwindset="rectangle::Points as core::iter::Iterator>::next=3;try_fold=11" fns=src/primitives/sector/points.rs::Points::new;src/primitives/sector/points.rs::Points::next;src/primitives/sector/mod.rs::Sector::contains;src/primitives/common/distance_iterator.rs::DistanceIterator::next
+    #[kani::proof]
+    #[kani::unwind(11)]
+    fn c05_sector_points_equals_contains_tiny() {
+        let d: u32 = kani::any();
+        kani::assume(d <= 3);
+        let (a0, a1) = match kani::any::<u8>() % 4 {
+            0 => (0.0, 90.0),
+            1 => (45.0, -135.0),
+            2 => (90.0, 180.0),
+            _ => (30.0, 400.0),
+        };
+        let s = Sector::new(Point::new(0, 0), d, Angle::from_degrees(a0), Angle::from_degrees(a1));
+        let q = any_point(8);
+        let mut it = s.points();
+        let mut hits = 0;
+        let mut prev: Option<Point> = None;
+        let mut k = 0;
+        while k < 10 {
+            if let Some(p) = it.next() {
+                assert!(sp::contains(&s.bounding_box(), p));
+                if let Some(pp) = prev {
+                    assert!(sp::before(pp, p));
+                }
+                prev = Some(p);
+                if p == q {
+                    hits += 1;
+                }
+            }
+            k += 1;
+        }
+        assert!(it.next().is_none());
+        assert!(hits == if s.contains(q) { 1 } else { 0 });
+        kani::cover!(hits == 1);
+        kani::cover!(hits == 0 && sp::contains(&s.bounding_box(), q));
+    }
+}
+//@end
